@@ -61,6 +61,22 @@ inline std::string run_program(std::istringstream& is, std::vector<Manifold>& st
       double a = num(), b = num(), h = num();
       Polygons p = {{{0, 0}, {a, 0}, {a, b}, {b, b}, {b, a}, {0, a}}};
       st.push_back(Manifold::Extrude(p, h));
+    } else if (tok == "torus") {
+      double R = num(), r = num();
+      int n = (int)num(), m = (int)num();
+      SimplePolygon c;
+      for (int i = 0; i < m; ++i) {
+        double t = 2 * 3.14159265358979323846 * i / m;
+        c.push_back({R + r * std::cos(t), r * std::sin(t)});
+      }
+      st.push_back(Manifold::Revolve({c}, n));
+    } else if (tok == "compose") {
+      // one Manifold made of the two topmost (disjoint) bodies
+      Manifold b = st.back();
+      st.pop_back();
+      Manifold a = st.back();
+      st.pop_back();
+      st.push_back(Manifold::Compose({a, b}));
     } else if (tok == "tr") {
       double x = num(), y = num(), z = num();
       st.back() = st.back().Translate(vec3(x, y, z));
